@@ -106,6 +106,14 @@ def judge(case):
             else:
                 continue
             break
+    try:
+        with quiet():
+            g.get_spherical_voronoi().get_voronoi_volumes()
+            dis2, bor2, adj2 = g.get_center_distances(), g.get_cell_borders(), g.get_voronoi_adjacency()
+        if not (np.array_equal(dense(bor2), dense(bor)) and np.array_equal(dense(adj2), dense(adj)) and np.array_equal(dense(dis2), dense(dis))):
+            msgs.append(f"{alg}_{N}: asking the same grid again (other getter order, after the volume estimate) changes the matrices")
+    except Exception as e:
+        msgs.append(f"{alg}_{N}: second round of getters raised {type(e).__name__}: {e}")
     return msgs[:6], info
 
 
